@@ -928,7 +928,8 @@ is_unescaped_in_path(const uint8_t c) {
 
 static int
 is_unescaped_in_query(const uint8_t c) {
-  return is_unescaped_in_path(c) || c=='/' || c=='?';
+  /* '&' separates the arguments, so inside an argument it has to be escaped */
+  return (is_unescaped_in_path(c) && c != '&') || c=='/' || c=='?';
 }
 
 coap_string_t *
